@@ -215,12 +215,70 @@ func checkC13(c c13Case) verdict {
 		return bad(true, labels, "%s validation returned (false, nil): rejected without an error", c.Kind)
 	}
 	if e := leak(err, secrets, codes); e != "" {
-		return bad(true, labels, "%s validation: %s", c.Kind, e)
+		// six digits can stand in an error text for another reason than the code (a counter, an instant, a size that the message
+		// echoes): the code depends on the secret, so the same call is made with another secret of the same shape; digits that
+		// are still there did not come from the code
+		if strings.Contains(e, "the code that would have been accepted") && digitsIndependentOfSecret(err, codes, shortTexts, recall) {
+			labels = append(labels, "digits-equal-to-the-code-independent-of-the-secret")
+		} else {
+			return bad(true, labels, "%s validation: %s", c.Kind, e)
+		}
 	}
 	if e := leakShort(err, shortTexts, recall); e != "" {
 		return bad(true, append(labels, "short-secret"), "%s validation: %s", c.Kind, e)
 	}
 	return ok(!got, labels...)
+}
+
+// shiftSecret moves every base32 letter of a secret text seven places on: another secret of the same shape (length, case,
+// padding, foreign characters where they were).
+func shiftSecret(t string) (string, bool) {
+	const alpha = "ABCDEFGHIJKLMNOPQRSTUVWXYZ234567"
+	alt := []byte(t)
+	changed := false
+	for i, ch := range alt {
+		up := ch
+		lower := ch >= 'a' && ch <= 'z'
+		if lower {
+			up = ch - 32
+		}
+		if k := strings.IndexByte(alpha, up); k >= 0 {
+			n := alpha[(k+7)%32]
+			if lower && n >= 'A' && n <= 'Z' {
+				n += 32
+			}
+			alt[i] = n
+			changed = true
+		}
+	}
+	return string(alt), changed
+}
+
+// digitsIndependentOfSecret: the accepted code occurs in the error text, and it still occurs, digit for digit, when the same
+// call is made with another secret of the same shape - so the text did not get those digits from the code.
+func digitsIndependentOfSecret(err error, codes, texts []string, recall func(string) error) bool {
+	if err == nil || recall == nil || len(texts) == 0 {
+		return false
+	}
+	alt, changed := shiftSecret(texts[len(texts)-1])
+	if !changed {
+		return false
+	}
+	err2 := recall(alt)
+	if err2 == nil {
+		return false
+	}
+	msg, msg2 := renderErr(err), renderErr(err2)
+	found := false
+	for _, c := range codes {
+		if len(c) >= 6 && strings.Contains(msg, c) {
+			found = true
+			if !strings.Contains(msg2, c) {
+				return false
+			}
+		}
+	}
+	return found
 }
 
 // leakShort covers secrets shorter than 16 characters. A short text can occur in an error message by coincidence ("ME" in
